@@ -22,6 +22,7 @@ RULE = ("seeded regions (coordinates 1e-3..1e7 px, spans 0.1 px..1e6 px, start c
 ASSUMPTIONS = ["float arithmetic with eps = 1e-9*max(1,|coord|/pixel)", "regions within 10% of the tolerance boundary are generated on either side, never on it",
                "polygon regions in another CRS are projected with the oracle's own pyproj transformer"]
 SHARDS = {"quick": 1, "thorough": 8}
+SUITE_UNDER_MONITOR = True
 
 _mon: Monitor = None  # type: ignore
 
